@@ -9,7 +9,7 @@ void operator delete[](void *p, std::size_t) noexcept { operator delete[](p); }
 int main(int argc, char **argv) {
     vf::opts o(argc, argv);
     vf::install_crash_handler();
-    RUN("suspend_point_exhaustive", 1, false, scn::suspend_point_exhaustive(o, R, (int)o.get("maxlen", 4)));
-    RUN("suspend_point_history", 1, false, scn::suspend_point_history(o, R, o.cases));
+    RUN("suspend_point_exhaustive", 1, true, scn::suspend_point_exhaustive(o, R, (int)o.get("maxlen", 4)));
+    RUN("suspend_point_history", 1, true, scn::suspend_point_history(o, R, o.cases));
     return 0;
 }
